@@ -307,6 +307,13 @@ func writeRecordConverters(w *formatting.IndentedWriter, t *dsl.RecordDefinition
 			w.Indented(func() {
 				fmt.Fprintf(w, "it->get_to(value.%s);\n", common.FieldIdentifierName(field.Name))
 			})
+			if gt, ok := dsl.GetUnderlyingType(field.Type).(*dsl.GeneralizedType); ok && gt.Dimensionality == nil && gt.Cases.HasNullOption() {
+				// The writer omits this field when it is null: reset the destination, which may be a reused object.
+				w.WriteStringln("} else {")
+				w.Indented(func() {
+					fmt.Fprintf(w, "value.%s = {};\n", common.FieldIdentifierName(field.Name))
+				})
+			}
 			w.WriteStringln("}")
 		}
 	})
